@@ -248,6 +248,43 @@ func runC11(c *core.Ctx) {
 		})
 	})
 
+	// a chain beyond any round number a limit might silently be capped at (2^20 references): accepted under a larger
+	// limit - the next integer, the largest integer -, refused under its own length; in a child of its own, whose
+	// death would be attributed to this case
+	c.RunPart("l3-million-chain", 20*time.Minute, func(c *core.Ctx) {
+		length := 1<<20 + 3
+		build := func() shared.DBNodeMap {
+			db := shared.NewDBNodeMap()
+			for i := 1; i <= length; i++ {
+				n := shared.NewParserNode(fmt.Sprintf("c%07d", i))
+				if i == length {
+					n.Elements.Add("x", 1)
+				} else {
+					n.Elements.Add(fmt.Sprintf("c%07d", i+1), 1)
+				}
+				db.Push(shared.NewDBNodeFromNode(n))
+			}
+			return db
+		}
+		for k, limit := range []int{length + 1, math.MaxInt64, length} {
+			entry := k % 2
+			c.Crumb(0, fmt.Sprintf("chain of %d references, limit %d, entry %d", length, limit, entry))
+			err := resolveVia(entry, build(), limit)
+			c.Eval(1)
+			c.Count("million_chain_runs", 1)
+			c.Nontrivial("million-chain", fmt.Sprint(limit))
+			wantErr := limit <= length
+			if (err != nil) != wantErr || (err != nil && !isDepthError(err)) {
+				class := "rejects-legal-nesting"
+				if wantErr {
+					class = "accepts-deep-chain"
+				}
+				c.Violation(fmt.Sprintf("resolve entry%d|%s", entry, class), fmt.Sprintf("chain of %d references under limit %d: error = %v", length, limit, err),
+					map[string]any{"chain_references": length, "limit": limit, "entry_point": entry, "error": fmt.Sprint(err), "note": "book built in memory: recipe c0000001 uses c0000002 ... the last one uses the element x"})
+			}
+		}
+	})
+
 	// the resolver value and the book it was made for have separate lives: the book may be filled, grown or
 	// corrected between NewResolver and Resolve, and between two calls of Resolve; the verdict is about the
 	// book as it is when Resolve runs
